@@ -214,15 +214,20 @@ def deserMany (one : Bytes → Option (Val × Nat)) : Nat → Bytes → Option (
     let (vs, j2) ← deserMany one k (d.drop j)
     pure (v :: vs, j + j2)
 
+/-- one vector element (an element that leaves itself unset - invalid `Bool` - raises). -/
+def deserElem (T : Table) (auto : Bool) (rec : Bytes → Option (List Arg) → Option (Val × Nat)) (e : ETy)
+    (x : Bytes) : Option (Val × Nat) :=
+  match deserOne T auto rec false e true x with
+  | some (some v, j) => some (v, j)
+  | _ => none
+
 def deserArg (T : Table) (auto : Bool) (rec : Bytes → Option (List Arg) → Option (Val × Nat))
     (untouch : Bool) (a : Arg) (d : Bytes) : Option (Option Val × Nat) :=
   if a.vec then
     let cnt := natOfLE (d.take 4)
     if d.length < 4 + cnt then none
     else
-      (deserMany (fun x => match deserOne T auto rec false a.ty true x with
-          | some (some v, j) => some (v, j)
-          | _ => none) cnt (d.drop 4)).map (fun (vs, j) => (some (.list vs), 4 + j))
+      (deserMany (deserElem T auto rec a.ty) cnt (d.drop 4)).map (fun (vs, j) => (some (.list vs), 4 + j))
   else deserOne T auto rec untouch a.ty false d
 
 /-- `result.get('mode', result.get('flags'))` -/
